@@ -64,6 +64,9 @@ type G struct {
 	protDepth int          // >0: inside a function that is only run under pcall/xpcall
 }
 
+// longHistory: iteration count of the long error histories (set from C01_LONG; 0 = default 1200..1400 only)
+var longHistory int
+
 func NewG(seed uint64, c11 bool) *G {
 	return &G{rng: hlib.NewRng(seed), c11: c11, scopes: [][]*VarInfo{{}}, feats: map[string]bool{}, sites: map[string]int{}}
 }
